@@ -253,7 +253,7 @@ type replayFile struct {
 }
 
 func sanitize(s string) string {
-	r := strings.NewReplacer("/", "_", " ", "_", "*", "", "(", "", ")", "", "|", "_", ":", "_", "\"", "", "'", "")
+	r := strings.NewReplacer("/", "_", " ", "_", "*", "", "(", "", ")", "", "|", "_", ":", "_", "\"", "", "'", "", "[", "_", "]", "", "=", "-", ",", "_", "<", "lt", ">", "gt", "$", "_", "?", "", "&", "")
 	s = r.Replace(s)
 	if len(s) > 60 {
 		s = s[:60]
